@@ -111,8 +111,8 @@ def p_spec(n):
         ln = c["length"]
         ln = "-" if ln == "None" else p_integer(opt(ln))
         iv = chars(c["initial_value"])
-        if ln == "-" and iv == "-":
-            return ["TRef", WIDTH[c["width"]], "-"]
+        if ln == "-":
+            return ["TRef", WIDTH[c["width"]], iv]
         return ["StrSpec", WIDTH[c["width"]], ln, iv]
     raise ProjError("initializer " + str(t))
 
